@@ -138,14 +138,27 @@ tuple<typename std::remove_reference_t<Types>...> make_tuple(Types &&... args) {
 }
 
 namespace _tuple {
+	// The I-th element of tp with the value category of tp itself (what std::get does for a forwarded std::tuple):
+	// an element of an lvalue tuple stays an lvalue; an element of an rvalue tuple becomes an rvalue, unless the
+	// element is itself a reference (reference collapsing keeps it an lvalue).
+	template<size_t I, typename Tuple>
+	constexpr decltype(auto) forward_element(Tuple &&tp) {
+		if constexpr (std::is_lvalue_reference_v<Tuple>) {
+			return tp.template get<I>();
+		} else {
+			using element = typename std::tuple_element<I, std::remove_cv_t<std::remove_reference_t<Tuple>>>::type;
+			return static_cast<element &&>(tp.template get<I>());
+		}
+	}
+
 	template<typename F, typename... Args, size_t... I>
-	auto apply(F functor, const tuple<Args...> &args, std::index_sequence<I...>) {
+	decltype(auto) apply(F functor, const tuple<Args...> &args, std::index_sequence<I...>) {
 		return functor(args.template get<I>()...);
 	}
 
 	template<typename F, typename... Args, size_t... I>
-	auto apply(F functor, tuple<Args...> &&args, std::index_sequence<I...>) {
-		return functor(std::move(args.template get<I>())...);
+	decltype(auto) apply(F functor, tuple<Args...> &&args, std::index_sequence<I...>) {
+		return functor(forward_element<I>(std::move(args))...);
 	}
 
 	// Turns a set of tuple-like types into a tuple
@@ -225,7 +238,7 @@ namespace _tuple {
 			typedef tuple_concater<Ret, index, Tuples...> next;
 			return next::do_concat(std::forward<Tuples>(tps)...,
 					std::forward<Res>(res)...,
-					std::move(tp.template get<Indices>())...);
+					forward_element<Indices>(std::forward<Tuple>(tp))...);
 		}
 	};
 
@@ -239,12 +252,12 @@ namespace _tuple {
 } // namespace tuple
 
 template<typename F, typename... Args>
-auto apply(F functor, const tuple<Args...> &args) {
+decltype(auto) apply(F functor, const tuple<Args...> &args) {
 	return _tuple::apply(std::move(functor), args, std::index_sequence_for<Args...>());
 }
 
 template<typename F, typename... Args>
-auto apply(F functor, tuple<Args...> &&args) {
+decltype(auto) apply(F functor, tuple<Args...> &&args) {
 	return _tuple::apply(std::move(functor), std::move(args), std::index_sequence_for<Args...>());
 }
 
